@@ -91,6 +91,7 @@ static void c18_child(const void *job, size_t n) {
 			else if (rlen > 121) unspecified = 1;                           /* fits at this depth but not at depth 3: a depth-independent limit is acceptable */
 		}
 		vs_sleep_us(2500000);                                 /* earlier requests expire: every call meets an empty budget */
+		{ static char ctx[300]; size_t co = (size_t) snprintf(ctx, sizeof ctx, "%s(node depth %d; args", f->name, j.node); for (int i = 0; i < f->nargs; i++) co += (size_t) snprintf(ctx + co, sizeof ctx - co, " %02x", cs.a[i]); snprintf(ctx + co, sizeof ctx - co, "; payload %d bytes)", f->payload_max >= 0 ? cs.plen : -1); hx_set_context(ctx); }
 		f->call(node, cs.a, cs.plen, payload);
 		bidib_flush();
 		char what[256]; size_t wo = (size_t) snprintf(what, sizeof what, "%s(node depth %d; args", f->name, j.node);
